@@ -14,13 +14,17 @@ def sign(x, tol=0.0):
     return 0 if abs(x) <= tol else (1 if x > 0 else -1)
 
 
-def call_stat(pyhf, tr, kind, mu, data, model, bounds=None, label=""):
+def call_stat(pyhf, tr, kind, mu, data, model, bounds=None, label="", hold=None):
+    """hold: {index: value} of nuisance parameters the caller pins through its own init_pars / fixed_params"""
     ts = pyhf.infer.test_statistics
     fn = getattr(ts, KINDS[kind])
     cfg = model.config
-    init, bnds, fixed = cfg.suggested_init(), bounds or cfg.suggested_bounds(), cfg.suggested_fixed()
+    init, bnds, fixed = list(cfg.suggested_init()), bounds or cfg.suggested_bounds(), list(cfg.suggested_fixed())
+    for i, v in (hold or {}).items():
+        init[i], fixed[i] = v, True
     if tr.on:
-        tr.buf.append({"ev": "ts.call", "kind": kind, "mu": float(mu), "poi": cfg.poi_index})
+        tr.buf.append({"ev": "ts.call", "kind": kind, "mu": float(mu), "poi": cfg.poi_index,
+                       "held": [[i, float(init[i])] for i in range(len(fixed)) if fixed[i] and i != cfg.poi_index]})
     val, (p1, p2) = fn(mu, data, model, init, bnds, fixed, return_fitted_pars=True)
     tl = pyhf.tensorlib
     val = float(tl.tolist(val))
@@ -45,7 +49,7 @@ def flush_ts(tr, pyhf, model, data, label):
     it = iter(fit_evs)
     for r in recs:
         if r["ev"] == "ts.call":
-            evs.append({"ev": "ts.call", "kind": r["kind"], "mu": L(r["mu"]), "poi": r["poi"]})
+            evs.append({"ev": "ts.call", "kind": r["kind"], "mu": L(r["mu"]), "poi": r["poi"], "held": [[i, L(v)] for i, v in r["held"]]})
         elif r["ev"] == "ts.return":
             if len(funs) == 2:
                 d = funs[0] - funs[1]
@@ -124,9 +128,14 @@ def replay(pyhf, backend, precision, chunk, table, seed):
     for di, obs in enumerate([[58.0, 61.0], [70.0, 52.0], [40.0, 45.0], [61.0, 57.0]]):
         data = obs + list(model.config.auxdata)
         for kind in ("qtilde", "ttilde", "q0"):
-            for mu in (0.0, 0.5, 1.0, 2.5):
+            for mi, mu in enumerate((0.0, 0.5, 1.0, 2.5)):
+                # every other call pins one nuisance parameter through the caller's own mask (not the model's suggestion)
+                nuis = [i for i in range(model.config.npars) if i != model.config.poi_index]
+                hold = {nuis[(di + mi) % len(nuis)]: 1.05} if (di + mi) % 2 else None
                 try:
-                    val, p1, p2 = call_stat(pyhf, tr, kind, mu, data, model)
+                    val, p1, p2 = call_stat(pyhf, tr, kind, mu, data, model, hold=hold)
+                    if hold and any(abs(p[i] - v) > 0 for p in (p1, p2) for i, v in hold.items()):
+                        add(f"{kind}: a parameter the caller holds fixed moved in a returned fit", {"hold": hold, "pars": [p1, p2]}, [f"kind:{kind}", "held"])
                     flush_ts(tr, pyhf, model, data, f"{kind}/nuis")
                     out["stats"] += 1
                     if val < 0:
